@@ -15,6 +15,38 @@ BASE_NOTE = ("Trusted: Coq 8.16.1 kernel + vm_compute (no native_compute, no axi
 
 # id -> (category, technique, level text, design ref, extra note)
 CLAIMS = {
+    "C01": ("proof", "Coq: closed lemmas (slider exactness, one-step shifts, pawn attack sets); full refinement stated, not proved; differential of the real generator against the executable 8x8 rules specification",
+            "PARTIAL proof. The refinement `generator = rules on all of D, no duplicates` is stated in coq/props/C01.v and NOT proved; proved are the "
+            "lemmas it rests on (C10 slider exactness, shifts without wrap-around, pawn attack sets). The property is decided by running the real "
+            "generator (all entry points) against the extracted specification spec/Rules.v on generated positions of D (play-outs, suite FENs, "
+            "Chess960/DFRC starts, pin/check/ep/castling/promotion templates): a test, not a proof.", "DESIGN.md section 6 C01", ""),
+    "C02": ("proof", "Coq proof of the null-move clause (abstraction to the 8x8 state); move clause stated; differential model/implementation/Rules.apply on every legal move of sampled positions",
+            "PARTIAL proof. Proved: a null move passes the turn, clears the ep target, keeps absolute placement and rights (for all positions with "
+            "disjoint colour boards). The move clause is stated and decided by the correspondence run (all fields, both key variants, Rules.apply, "
+            "closure of D, play-outs with null moves).", "DESIGN.md section 6 C02", ""),
+    "C03": ("proof", "Coq lemmas on the root (answer = last pv, best move of the root loop is legal, ordering a permutation) + searches over limits/histories/tables checked against the rules",
+            "PARTIAL proof. Proved on the model: the answer is the move of the last reported iteration; when the root loop ends with a best move it is a "
+            "legal root move; the root is never null-move pruned. Not proved: that a best move always exists when legal moves exist (value bounds). "
+            "Decided by running the real search with zero/near-zero budgets, clocks 95..105, repetition roots and pre-filled tables.",
+            "DESIGN.md section 6 C03", "modulo fuel"),
+    "C06": ("proof", "Coq lemmas (decimal and ep-square round trip) + differential round trips and an independent canonical X-FEN printer",
+            "PARTIAL proof. Proved: clocks and ep squares round-trip through printer and parser (both arithmetic modes). Board rows, castling letters "
+            "and whole strings: correspondence run on positions reached by play (incl. inner castling rooks) and on canonical strings.",
+            "DESIGN.md section 6 C06", ""),
+    "C08": ("proof", "Coq lemmas (popcount = enumeration length, slider counts, perft recursion, capture list = filter) + differential vs the rules (counts, captures, attack queries, perft)",
+            "PARTIAL proof. Proved: the arithmetic link between counts and lists, perft's recursion with the bulk counter, captures = filtered generation in order. "
+            "count = length for all blocks, is_capture and the five attack queries vs the rules: correspondence run.", "DESIGN.md section 6 C08", ""),
+    "C09": ("proof", "Coq proof of shape, square-name injectivity and injectivity of the Chess960 notation + differential on all legal moves incl. parser round trip",
+            "PARTIAL proof. Proved: string shape, square names injective, Chess960-mode strings determine the move. Standard-mode injectivity on standard "
+            "geometry and the parser round trip: correspondence run.", "DESIGN.md section 6 C09", ""),
+    "C11": ("proof", "Coq lemmas: a non-root node with clock >= 100 or a repeated key in the look-back window returns the draw score + real searches on all-drawn roots",
+            "PARTIAL proof. Proved on the model: the two rule-draw returns at non-root nodes (look-back window of halfmoves + 1 entries). The root-level "
+            "statement (every iteration >= 2 reports the draw constant) is decided by running real searches on generated all-drawn roots.",
+            "DESIGN.md section 6 C11", "modulo fuel"),
+    "C12": ("proof", "Coq lemmas: a node without legal moves in check returns -MATE+ply; no null move in check + real searches on mate-in-one roots with fresh and pre-filled tables",
+            "PARTIAL proof. Proved on the model: value of a mated / stalemated node for any window, depth and table. The root-level statement for arbitrary "
+            "tables is decided by running real searches (depth 1..4, fresh and pre-filled tables) on generated mate-in-one roots.",
+            "DESIGN.md section 6 C12", "modulo fuel"),
     "C04": ("proof", "Coq proof of the key code's minimum distance (vm_compute sweep over regenerated tables, lifted by induction) + differential on incremental/recomputed keys",
             "PARTIAL proof. Proved: any 1..4 distinct entries of the regenerated key tables XOR to a non-zero value (positions differing in up to four "
             "key features get different keys). Not proved yet: incremental = recomputed, key = XOR of features; those rest on the correspondence "
